@@ -1214,3 +1214,70 @@ Section Shape.
     - reflexivity.
   Qed.
 End Shape.
+
+(* ------------------------------------------------------------------ streaming functions are removed,
+   all others stay, in order, and are dispatched *)
+
+Lemma keeps_iff f : keeps f = true <-> fs_stream f = None.
+Proof.
+  unfold keeps, parse_streaming. destruct (fs_stream f) as [[|v [|w r]]|]; split; intro H; try discriminate; try reflexivity.
+  destruct (mode_ok v); [destruct (length (fn_args (fs_fn f)) =? 1)%nat|]; discriminate.
+Qed.
+
+Theorem remove_streaming_spec l g :
+  In g (remove_streaming l) <-> exists f, In f l /\ fs_fn f = g /\ fs_stream f = None.
+Proof.
+  unfold remove_streaming. rewrite in_map_iff. split.
+  - intros (f & Hg & Hin). apply filter_In in Hin. destruct Hin as [Hin Hk].
+    exists f. split; [assumption|]. split; [assumption | apply keeps_iff; assumption].
+  - intros (f & Hin & Hg & Hn). exists f. split; [assumption|]. apply filter_In. split; [assumption|].
+    apply keeps_iff. assumption.
+Qed.
+
+Theorem remove_streaming_app a b : remove_streaming (a ++ b) = remove_streaming a ++ remove_streaming b.
+Proof. unfold remove_streaming. rewrite filter_app, map_app. reflexivity. Qed.
+
+Lemma find_method_own_nodup o l f :
+  NoDup (map fn_name l) -> In f l -> find_method (map (fun x => (o, x)) l) (fn_name f) = Some (o, f).
+Proof.
+  induction l as [|a l IH]; intros Hnd Hin; [destruct Hin|].
+  cbn [map] in Hnd. inversion Hnd as [|? ? Hna Hnd']; subst. cbn [map find_method snd].
+  destruct Hin as [->|Hin]; [rewrite beqb_refl; reflexivity|].
+  destruct (beqb (fn_name f) (fn_name a)) eqn:E.
+  - exfalso. apply beqb_true in E. apply Hna. rewrite <- E. apply in_map. assumption.
+  - apply IH; assumption.
+Qed.
+
+(* a function without the annotation is still dispatched under its IDL name by the processor of
+   the service the generator sees, however many streaming functions surround it *)
+Theorem kept_function_dispatched s f :
+  In f (ss_funs s) -> fs_stream f = None ->
+  NoDup (map fn_name (sv_funs (effective s))) ->
+  find_method (own_methods (effective s)) (fn_name (fs_fn f)) = Some (ss_name s, fs_fn f).
+Proof.
+  intros Hin Hn Hnd. unfold own_methods. cbn [sv_name sv_funs effective] in *.
+  apply find_method_own_nodup; [exact Hnd|].
+  destruct (ss_main s); [|apply in_map; assumption].
+  apply remove_streaming_spec. exists f. auto.
+Qed.
+
+Lemma find_method_none tbl name : (forall m, In m tbl -> fn_name (snd m) <> name) -> find_method tbl name = None.
+Proof.
+  induction tbl as [|a tbl IH]; intro H; [reflexivity|]. cbn [find_method].
+  destruct (beqb name (fn_name (snd a))) eqn:E.
+  - apply beqb_true in E. exfalso. apply (H a (or_introl eq_refl)). congruence.
+  - apply IH. intros m Hm. apply H. right. assumption.
+Qed.
+
+(* a removed function is unknown to the processor (unless another, kept function has its name) *)
+Theorem streaming_function_unknown s name :
+  ss_main s = true ->
+  (forall f, In f (ss_funs s) -> fn_name (fs_fn f) = name -> fs_stream f <> None) ->
+  find_method (own_methods (effective s)) name = None.
+Proof.
+  intros Hmain H. apply find_method_none. intros m Hm Hname.
+  unfold own_methods in Hm. apply in_map_iff in Hm. destruct Hm as (g & <- & Hg).
+  cbn [effective sv_funs] in Hg. rewrite Hmain in Hg.
+  apply remove_streaming_spec in Hg. destruct Hg as (f & Hin & Hfg & Hnone).
+  apply (H f Hin); [rewrite Hfg; exact Hname | exact Hnone].
+Qed.
